@@ -1280,7 +1280,11 @@ impl<'a> Run<'a> {
                 let bh = self.node.lock().side_block_hash();
                 BEST_OVERRIDE.with(|c| c.set(Some(bh)));
             }
-            Op::NodeDown => self.node.lock().faults.down = true,
+            Op::NodeDown => {
+                let mut st = self.node.lock();
+                st.faults.down = true;
+                st.faults.flavour = (st.rpc_count % 5) as u8;
+            }
             Op::NodeUp => self.node.lock().faults.down = false,
             Op::FetchFault { nth, persistent } => {
                 let mut st = self.node.lock();
@@ -1424,12 +1428,14 @@ pub fn mem_digest(ctx: &TowerCtx) -> u64 {
 
 /// Static clause names for violations of other properties observed after a crash (signatures need 'static strs).
 pub fn after_crash_clause(property: &str, clause: &str) -> &'static str {
-    use std::collections::HashMap;
+    // (a BTreeMap: creating a HashMap here would advance the calling thread's hash-key counter the first time only,
+    // making the first simulation of a process differ from the later ones)
+    use std::collections::BTreeMap;
     use std::sync::Mutex;
-    static INTERN: Mutex<Option<HashMap<String, &'static str>>> = Mutex::new(None);
+    static INTERN: Mutex<BTreeMap<String, &'static str>> = Mutex::new(BTreeMap::new());
     let key = format!("after_crash:{property}:{clause}");
     let mut g = INTERN.lock().unwrap_or_else(|e| e.into_inner());
-    let m = g.get_or_insert_with(HashMap::new);
+    let m = &mut *g;
     if let Some(s) = m.get(&key) {
         return s;
     }
@@ -1673,6 +1679,7 @@ impl<'a> Run<'a> {
                 if !skipped.is_empty() {
                     self.model.probe("restart_ahead_of_processed_tip");
                     let mut relevant = None;
+                    let mut touched: Vec<(u32, u32)> = vec![];
                     for bh in skipped.iter() {
                         for tx in node.blocks[bh].0.txdata.iter().skip(1) {
                             let txid = tx.compute_txid();
@@ -1681,8 +1688,20 @@ impl<'a> Run<'a> {
                                 let is_penalty = r.penalty.as_ref().map(|p| p.compute_txid()) == Some(txid);
                                 if (is_dispute && r.state == RecState::Watched) || (is_penalty && r.state == RecState::Responded) {
                                     relevant = Some((*k, node.blocks[bh].1));
+                                    touched.push(*k);
                                 }
                             }
+                        }
+                    }
+                    // What the skipped blocks would have done to these records never happens: that is this (C03) finding. Its
+                    // consequences (a breach never answered, a confirmation never recorded) are not reported a second time
+                    // under C01 / C04: the records are adopted as they are.
+                    for k in touched {
+                        if let Some(r) = self.model.recs.get_mut(&k) {
+                            r.unspecified = true;
+                        }
+                        if let Some(m) = self.model.users.get_mut(&k.0) {
+                            m.tainted = true;
                         }
                     }
                     if let Some((k, h)) = relevant {
